@@ -5,7 +5,7 @@ d=$(realpath $1); tier=$2; shift 2
 cd ${SHADOW:-/tmp/shadow}/verif || exit 2
 git -C ${SHADOW:-/tmp/shadow}/repo diff --quiet || { echo "shadow repo is dirty"; exit 2; }
 git -C ${SHADOW:-/tmp/shadow}/repo apply "$d/patch.diff" || { echo "patch does not apply"; exit 2; }
-trap 'git -C ${SHADOW:-/tmp/shadow}/repo checkout -q -- .' EXIT
+trap 'git -C ${SHADOW:-/tmp/shadow}/repo checkout -q -- .; git -C ${SHADOW:-/tmp/shadow}/repo clean -fdq -- truc truc_runtime' EXIT
 for p in "$@"; do
   out=$(./check $p $tier 2>&1); rc=$?
   echo "== $p rc=$rc :: $(echo "$out" | grep -E "VIOLATION|INCONCLUSIVE|^OK|^  \[" | head -3 | tr '\n' ' ' | cut -c1-400)"
